@@ -37,7 +37,7 @@ from fractions import Fraction
 from functools import lru_cache
 
 import numpy as np
-from shapely.geometry import LineString, Point, Polygon, box
+from shapely.geometry import LineString, MultiPolygon, Point, Polygon, box
 
 from models.arrays import index_model
 
@@ -56,7 +56,8 @@ def mapped_shape(kind, coords, tcoords, fcoords, fmax):
     kind / coords (real units):
       box [t0, f0, t1, f1]; interval [t0, t1] (whole frequency range 0..fmax);
       stamp t (vertical line over the whole frequency range); point [t, f];
-      poly [[t, f], ...] (one ring, not closed); line [[t, f], ...]
+      poly [[t, f], ...] (one ring, not closed); line [[t, f], ...];
+      polyh [shell, hole, ...] (rings); mpolyh [[shell, hole, ...], ...] (polygons of rings)
     """
     mv = lambda t, f: map_vertex(tcoords, fcoords, t, f)  # noqa: E731
     if kind == "box":
@@ -73,6 +74,10 @@ def mapped_shape(kind, coords, tcoords, fcoords, fmax):
         return (2, tuple(mv(t, f) for t, f in coords))
     if kind == "line":
         return (1, tuple(mv(t, f) for t, f in coords))
+    if kind == "polyh":  # one polygon: [shell, hole, ...]
+        return (3, (tuple(tuple(mv(t, f) for t, f in ring) for ring in coords),))
+    if kind == "mpolyh":  # several polygons, each [shell, hole, ...]; one geometry, one value
+        return (3, tuple(tuple(tuple(mv(t, f) for t, f in ring) for ring in poly) for poly in coords))
     raise ValueError(kind)
 
 
@@ -108,7 +113,15 @@ def cover(dim, verts, nt, nf):
     """(cov, touched): int8 array (nt, nf) of COVERED / NOT / UNJUDGED and bool array (nt, nf)."""
     cov = np.zeros((nt, nf), dtype=np.int8)
     touched = np.zeros((nt, nf), dtype=bool)
-    if dim == 2 and _area2(verts) != 0:
+    if dim == 3:
+        # polygons with holes (one geometry): the interior excludes the holes; centres on any ring are unjudged
+        polys = [Polygon(p[0], list(p[1:])) for p in verts]
+        poly = polys[0] if len(polys) == 1 else MultiPolygon(polys)
+        if poly.is_valid and poly.area > 0:
+            mode, solid, edge = "area", poly, poly.boundary
+        else:
+            mode, solid, edge = "thin", poly.convex_hull, None
+    elif dim == 2 and _area2(verts) != 0:
         poly = Polygon(verts)
         if poly.is_valid:
             mode, solid, edge = "area", poly, poly.exterior
